@@ -643,7 +643,24 @@ class OneNT(collections.namedtuple('OneNTBase', ['v'])):
 def onelevel(tape, viol, keys, probes, oplog, custom_funcs):
     ctx = gen.swarm_ctx(tape, custom_classes=(U.CA, U.CB))
     tree = gen.gen_tree(tape, 2 + tape.draw(12, 'budget'), ctx)
-    special = tape.draw(12, 'ol-special')
+    special = tape.draw(13, 'ol-special')
+    if special == 12:
+        # a namedtuple class whose registration as a custom node was ATTEMPTED and refused (the engine's override warning was an
+        # error at the time): engine and twin must both still see a plain namedtuple
+        import warnings as _w
+        cls = type('RefusedNT', (collections.namedtuple('RefusedNTBase', ['p', 'q']),), {'__slots__': ()})
+        fr = U.Funcs(cls, 99, 0)
+        with _w.catch_warnings():
+            _w.simplefilter('error')
+            try:
+                optree.register_pytree_node(cls, fr.flatten, fr.unflatten, namespace=('ns', 'other')[tape.draw(2, 'ol-refused-ns')])
+                refused = False
+            except Exception:  # noqa: BLE001
+                refused = True
+        probes['one-level:refused-registration'] += int(refused)
+        tree = cls(ctx.leaf(), [ctx.leaf()])
+        if not refused:
+            custom_funcs['refused-cleanup'] = cls
     if special in (10, 11):
         # a custom node whose flatten function returns an unusual third element (entries): empty, of the wrong length, not
         # iterable, falsy-but-well-formed, or with no truth value.  Engine and twin must agree on accept / reject, and on
